@@ -165,6 +165,13 @@ def compare(got, spec, axioms=(), pc=None, nan=True):
             return R.PROVED, 'same selection as the definition in every ordering%s case' % (' x NaN' if nan else '')
         if r:
             return R.REFUTED, 'selection differs from the definition in case [%s]: got %s, definition %s' % (r[1], r[2], r[3])
+    # last resort for a refutation: an exact rational point at which the two terms (real-arithmetic reading) evaluate to clearly different numbers
+    from . import exact as X
+    w = X.separate(got, spec)
+    if w is not None:
+        env, a, b = w
+        if abs(a - b) > Fraction(1, 1000) * max(1, abs(a), abs(b)):
+            return R.REFUTED, 'differs from the definition at %s: got %s, definition %s' % (X.show_env(env), a, b)
     if pg is not None:
         return R.UNDECIDED, 'normal forms differ in opaque atoms: got %s ; definition %s' % (P.show_poly(pg, limit=5), P.show_poly(ps, limit=5))
     return R.UNDECIDED, 'no normal form'
